@@ -50,3 +50,77 @@ def run(ctx, crate, clause="border-offsets"):
                "%d keys (rotated base-cell coordinates x float test): wherever the base-cell step forces the last row / column (%d keys: the NW / NE borders of the north polar base cells and the north pole) the offset returned on that axis is 1.0, and only there" % (n, forced_cases) if not bad else
                "key (i, j) = %s: coordinate forced to the last row/column on axis [%s] but offsets returned are (dx, dy) = (%s, %s) — for a position with lon = k*pi/2 in the north polar cap the pair (cell, dx, dy) denotes the opposite border of the cell" % bad[0],
                at=b.span, kind="N", sample={"keys": n, "forced": forced_cases, "mismatches": [list(map(str, x)) for x in bad[:4]]})
+
+
+def tiebreaks(ctx, crate, depths=(0, 2, 7), clause="border-offsets"):
+    """The tie-breaks of the base-cell step, per finite key and for a few depths (Layer constants folded):
+
+    * scale invariance: the one float test that decides which axis is forced (k = -1) or which
+      coordinate is pushed over the border (k = 3) compares the position with BASE-CELL quantities
+      only (x' - i*nside against y' - j*nside).  If it reads the cell coordinates `ij` (the floor at
+      this depth) its answer changes with the depth as soon as the position is a cell corner: the
+      cell returned at one depth is no longer inside the cell returned at a shallower one, and it
+      does not contain the position.
+    * k = 3, 4 (a rounding put x' or y' just below the border of a south polar cap base cell): the
+      coordinate that is pushed over is the LARGER one at base-cell level (read at two sample
+      points), and the cell coordinates handed to `to_coos_in_base_cell` / `build_hash` are the
+      pushed ones (a correction made on a copy is lost)."""
+    from rules.common import feval
+    b = ctx.anchor(crate, FN, clause)
+    if b is None: return
+    DISC = "nested::discretize"; SRS = "nested::Layer::shift_rotate_scale"; TCO = "nested::Layer::to_coos_in_base_cell"
+    bad_scale = []; bad_push = []; n_keys = 0; n_push = 0
+    for d in depths:
+        e0 = Engine(crate); r0 = e0.run("nested::Layer::new", [C('u8', d)])
+        if not r0.returns:
+            ctx.undecided(clause, FN + ":tiebreaks", "Layer::new(%d) has no value" % d, at=b.span); return
+        selfv = r0.ret; nside = 1 << d
+        e1 = Engine(crate, opaque=OPQ); r1 = e1.run_method(FN, selfv)
+        bc = [ev for ev in e1.events.values() if ev.callee == BCC]; dc = [ev for ev in e1.events.values() if ev.callee == DISC]
+        if len(bc) != 1 or len(dc) != 1:
+            ctx.undecided(clause, FN + ":tiebreaks", "expected one call of base_cell_coos and one of discretize", at=b.span); return
+        R, D = bc[0].ret, dc[0].ret
+        XY = dc[0].args[0]                     # the rotated, scaled position handed to discretize
+        X, Y = ('fld', XY, 0), ('fld', XY, 1)
+        for i in range(5):
+            for j in range(5):
+                k = 5 - (i + j)
+                if k not in (-1, 3): continue
+                n_keys += 1
+                sub0 = {('fld', R, 0): C('u8', i), ('fld', R, 1): C('u8', j)}
+                e = Engine(crate, opaque=OPQ); e.subst = dict(sub0); e.run_method(FN, selfv)
+                tests = [t for t in dict.fromkeys(t for t, loc in e.branches) if t[0] == 'op' and t[1] in ('lt', 'le', 'gt', 'ge') and (any(x == X for x in walk(t)) or any(x == Y for x in walk(t)))]
+                if len(tests) != 1:
+                    bad_scale.append((d, (i, j), "%d float tests on that key" % len(tests))); continue
+                t = tests[0]
+                if any(x == D for x in walk(t)):
+                    bad_scale.append((d, (i, j), "the test reads the cell coordinates: %s" % show(t)[:90])); continue
+                # semantic reading: x' - i*nside > y' - j*nside, in any orientation / strictness
+                pts = [((i + 0.75) * nside, (j + 0.25) * nside, True), ((i + 0.25) * nside, (j + 0.75) * nside, False)]
+                vals = [feval(t, {X: px, Y: py}, e) for px, py, _ in pts]
+                if any(v is None for v in vals) or vals[0] == vals[1]:
+                    bad_scale.append((d, (i, j), "not a comparison of x' - i*nside with y' - j*nside: %s" % show(t)[:90])); continue
+                x_larger_when_true = bool(vals[0])
+                if k != 3: continue
+                # which coordinate is pushed, on each outcome of the test
+                for outcome in (0, 1):
+                    e2 = Engine(crate, opaque=OPQ, max_recursion=2); e2.subst = dict(sub0); e2.subst[t] = C('bool', outcome)
+                    r2 = e2.run_method(FN, selfv)
+                    tc = [ev for ev in e2.events.values() if ev.callee == TCO]
+                    n_push += 1
+                    if len(tc) != 1 or not tc[0].argvals or tc[0].argvals[-1] is None:
+                        bad_push.append((d, (i, j), "cannot see the coordinates handed to to_coos_in_base_cell")); continue
+                    v = tc[0].argvals[-1]
+                    inc = lambda idx: v[0] == 'agg' and v[3][idx] == ('op', 'add', 'u64', ('fld', D, idx), C('u64', 1))
+                    same = lambda idx: v[0] == 'agg' and v[3][idx] == ('fld', D, idx)
+                    x_is_larger = (bool(outcome) == x_larger_when_true)
+                    ok = (inc(0) and same(1)) if x_is_larger else (inc(1) and same(0))
+                    if not ok:
+                        bad_push.append((d, (i, j), "with %s the larger coordinate, the cell coordinates used afterwards are %s" % ("x" if x_is_larger else "y", show(v)[:80])))
+    ctx.report(clause, FN + ":tie-breaks-at-base-cell-level", not bad_scale and n_keys >= 12,
+               "%d keys (k = -1 and k = 3, depths %s): the deciding test compares x' - i*nside with y' - j*nside and does not read the cell coordinates" % (n_keys, list(depths)) if not bad_scale else
+               "depth %s key %s: %s — the choice of the base cell depends on the depth when the position is a cell corner (e.g. lon = 0, sqrt(3(1 - sin lat)) = 1/2)" % bad_scale[0],
+               at=b.span, kind="N", sample={"keys": n_keys, "mismatches": [list(map(str, x)) for x in bad_scale[:3]]})
+    ctx.report(clause, FN + ":pushed-coordinate-used", not bad_push and n_push >= 12,
+               "%d (key, outcome) cases of k = 3: the larger coordinate is pushed over the base-cell border and the pushed cell coordinates are the ones decoded afterwards" % n_push if not bad_push else
+               "depth %s key %s: %s" % bad_push[0], at=b.span, kind="N", sample={"cases": n_push, "mismatches": [list(map(str, x)) for x in bad_push[:3]]})
